@@ -550,7 +550,7 @@ func ruleSpanSlotOwner(c *Ctx, rid string) {
 		}
 		for fn := range m.reachFrom(r) {
 			nf++
-			if fn.Name() == "newConnWith" {
+			if fn == c.P.connConstructor() {
 				continue
 			}
 			if found, at := storesCtx(fn); found {
